@@ -101,7 +101,7 @@ def read_mub_table(path, n):
             raise TableError("%s line %d: expected 2 fields" % (path, k + 1))
         basis = parts[0].split(",")
         for s in basis:
-            if len(s) != n or not re.match(r"^[IXYZ]+$", s):
+            if not re.match(r"^[+-]?[IXYZ]{%d}$" % n, s):
                 raise TableError("%s line %d: bad Pauli %r" % (path, k + 1, s))
         entries.append((basis, parse_circuit_text(parts[1], n)))
     return tuple(int(h) for h in head), entries
